@@ -25,6 +25,11 @@
 
   Ghost state: per object `base` (content when read / last committed) and `pend` (modifications since);
   `log` (committed modifications in commit order), `commits` (client, version the write was based on).
+
+  Reads: `read` is the whole read call as one step.  The section "a read call split into its SQL statements" (`SOp`,
+  `sstep`, driver request `cas split …`) splits `retrieve_stage` / `retrieve` / `get_*_stages` into the statement
+  returning the stage row (version together with status / context / outputs), the statement returning the task rows and
+  the return of the call, with arbitrary ops of other clients in between (torn reads).
 -/
 import Stab.Model.Basic
 
@@ -241,9 +246,117 @@ def driveUpsert (rows t : String) : String :=
     | some (rows', v) => s!"ok:{v}#" ++ showRows rows'
   | _, _ => "bad-request"
 
+/-! ### a read call split into its SQL statements (torn reads)
+
+  `retrieve_stage` / `retrieve` / `get_{upstream,downstream,synthetic}_stages` are not one statement: one SELECT
+  returns the stage row — `version` TOGETHER WITH status / context / outputs (`row_to_stage` builds the object from
+  that single row) — and later SELECTs return the task rows and data of other tables.  Other clients' committed writes
+  can fall between any two of these statements.  `SOp` adds the statements of a read to the atomic ops:
+
+  * `readRow c`   the statement returning the stage row: starts the object under construction (`Partial`)
+  * `readTasks c` the statement returning the task rows
+  * `readVer c`   a LATER statement returning only `version` and overwriting `stage.version`.  The code has no such
+                  statement (`Variant.sameStatement`: a no-op); `Variant.rereadVersion` is the hypothetical variant
+                  that has one ("hand out the row's current version")
+  * `readEnd c`   the call returns: the object replaces the client's object
+  * `op o`        any atomic op of any client (the atomic `read` stays available)
+-/
+
+/-- which statement the object's `version` comes from -/
+inductive Variant where
+  | sameStatement   -- the code: the SELECT that returns status / context / outputs
+  | rereadVersion   -- NOT the code: a later `SELECT version …` overwrites `stage.version`
+  deriving DecidableEq, Repr
+
+/-- the object under construction inside a read call -/
+structure Partial where
+  version : Nat
+  content : Content
+  tasks : List TRow
+  deriving DecidableEq, Repr
+
+structure SState where
+  base : State
+  parts : List (Nat × Partial) := []
+  deriving Repr
+
+inductive SOp where
+  | op (o : Op)
+  | readRow (c : Nat)
+  | readTasks (c : Nat)
+  | readVer (c : Nat)
+  | readEnd (c : Nat)
+  deriving DecidableEq, Repr
+
+def sinit (status ntasks : Nat) : SState := { base := init status ntasks }
+
+def getPart (s : SState) (c : Nat) : Option Partial := (s.parts.find? (fun q => q.1 == c)).map (·.2)
+
+def setPart (s : SState) (c : Nat) (p : Partial) : SState :=
+  { s with parts := (c, p) :: s.parts.filter (fun q => q.1 != c) }
+
+def sstep (v : Variant) (s : SState) : SOp → SState × Out
+  | .op o => ({ s with base := (step s.base o).1 }, (step s.base o).2)
+  | .readRow c => (setPart s c { version := s.base.db.version, content := s.base.db.content, tasks := [] }, .ok)
+  | .readTasks c =>
+    match getPart s c with
+    | none => (s, .noobj)
+    | some p => (setPart s c { p with tasks := s.base.db.tasks }, .ok)
+  | .readVer c =>
+    match getPart s c with
+    | none => (s, .noobj)
+    | some p =>
+      match v with
+      | .sameStatement => (s, .ok)
+      | .rereadVersion => (setPart s c { p with version := s.base.db.version }, .ok)
+  | .readEnd c =>
+    match getPart s c with
+    | none => (s, .noobj)
+    | some p =>
+      ({ base := setObj s.base c { version := p.version, cur := p.content, tasks := p.tasks, base := p.content, pend := [] }
+         parts := s.parts.filter (fun q => q.1 != c) }, .ok)
+
+def snext (v : Variant) (s : SState) (op : SOp) : SState := (sstep v s op).1
+
+def srun (v : Variant) (s : SState) (ops : List SOp) : SState := ops.foldl (snext v) s
+
+/-! text protocol of the split reads
+
+  request : `cas split <s|r> <status> <ntasks> <op;op;…>`   (`s` = Variant.sameStatement, `r` = Variant.rereadVersion)
+  ops     : the ops of `cas` plus `rrow:c` `rtasks:c` `rver:c` `rend:c`
+  answer  : per op `<out>#<db>`; for `rend` the object handed out is shown too: `ok@<version>.<status>.<payload>@<tasks>#<db>`
+-/
+
+def parseSOp (s : String) : Option SOp :=
+  match s.splitOn ":" with
+  | ["rrow", c] => do pure (.readRow (← Parse.nat? c))
+  | ["rtasks", c] => do pure (.readTasks (← Parse.nat? c))
+  | ["rver", c] => do pure (.readVer (← Parse.nat? c))
+  | ["rend", c] => do pure (.readEnd (← Parse.nat? c))
+  | _ => (parseOp s).map .op
+
+def showObj (o : Obj) : String :=
+  s!"{o.version}.{o.cur.status}.{Parse.showNats o.cur.payload}@" ++ showRows o.tasks
+
+def srunShow (v : Variant) (s : SState) : List SOp → List String
+  | [] => []
+  | op :: rest =>
+    let (s', o) := sstep v s op
+    let shown := match op, o with
+      | .readEnd c, .ok => "ok@" ++ (match getObj s'.base c with | some ob => showObj ob | none => "?")
+      | _, _ => o.show
+    (shown ++ "#" ++ showDb s'.base.db) :: srunShow v s' rest
+
+def driveSplit (v st nt ops : String) : String :=
+  match (if v == "s" then some Variant.sameStatement else if v == "r" then some Variant.rereadVersion else none),
+        Parse.nat? st, Parse.nat? nt, Parse.all? parseSOp (Parse.splitNE ops ";") with
+  | some v, some st, some nt, some ops => Parse.joinWith "|" (srunShow v (sinit st nt) ops)
+  | _, _, _, _ => "bad-request"
+
 def drive (rest : String) : String :=
   match rest.splitOn " " with
   | ["upsert", rows, t] => driveUpsert rows t
+  | ["split", v, st, nt, ops] => driveSplit v st nt ops
   | [st, nt, ops] =>
     match Parse.nat? st, Parse.nat? nt, Parse.all? parseOp (Parse.splitNE ops ";") with
     | some st, some nt, some ops => Parse.joinWith "|" (runShow (init st nt) ops)
